@@ -25,6 +25,8 @@ sub!(c05, "c05.rs");
 sub!(core, "core.rs");
 sub!(update, "update.rs");
 sub!(updrun, "updrun.rs");
+sub!(cmd, "cmd.rs");
+sub!(imports, "imports.rs");
 
 /// SplitMix64: every random choice of a run derives from one state.
 pub struct Rng(pub u64);
@@ -300,7 +302,11 @@ fn run() {
     match prop.as_str() {
         "C05" => c05::run(&mut report, replay.as_deref()),
         "C01" | "C02" | "C03" | "C04" | "C06" | "C12" => core::run(&mut report, replay.as_deref()),
-        "C09" | "C10" | "C11" | "C13" => updrun::run(&mut report, replay.as_deref()),
+        "C09" | "C10" | "C11" | "C13" => {
+            updrun::run(&mut report, replay.as_deref());
+            cmd::run(&mut report);
+        }
+        "C07" => imports::run(&mut report),
         other => panic!("no runner for property {other}"),
     }
     report.write();
